@@ -95,10 +95,11 @@ func ClientProfileToMultiURLs(profile *pb.ClientProfile) (urls []string, err err
 			q.Add("traffic-pattern", base64.StdEncoding.EncodeToString(b))
 		}
 		for _, binding := range server.GetPortBindings() {
-			if binding.GetPortRange() != "" {
-				q.Add("port", binding.GetPortRange())
-			} else {
+			// A binding with a port uses the port and ignores the port range.
+			if binding.GetPort() != 0 {
 				q.Add("port", strconv.Itoa(int(binding.GetPort())))
+			} else {
+				q.Add("port", binding.GetPortRange())
 			}
 			q.Add("protocol", binding.GetProtocol().String())
 		}
